@@ -105,6 +105,9 @@ def string_literal(rng, v=None):
 
 # ---- variable pool ------------------------------------------------------------------------------
 
+HALVES = [Fraction(k, 2) for k in (1, -1, 3, -3, 5, -5, 7, -7, 15, -15, 255, -255, 65533, -65535, 65535, -65537)]
+
+
 def make_pool(rng, exact=False):
     """-> {name: (type, python value for Session.set_variable, model value)}"""
     pool = {}
@@ -118,6 +121,10 @@ def make_pool(rng, exact=False):
            Fraction(-7), Fraction(2), Fraction(0)]
     if exact:
         sng = [Fraction(x) for x in (-4, 3, 10, -7, 2, 0, 6, 9, -1, 20)]
+    # exact halves and their single-precision neighbours, both signs (operands of the integer-converting operators)
+    u = Fraction(1, 2 ** 22)
+    sng += rng.sample(HALVES + [Fraction(5, 2) + u, Fraction(5, 2) - u, -Fraction(5, 2) - u, -Fraction(5, 2) + u,
+                                Fraction(1, 2) - u / 4, -Fraction(1, 2) + u / 4, Fraction(7, 2) + u, -Fraction(7, 2) - u], 6)
     rng.shuffle(sng)
     for i in range(5):
         pool['S%d!' % (i + 1)] = ('!', float(sng[i]), _fr(sng[i]))
@@ -125,6 +132,9 @@ def make_pool(rng, exact=False):
            Fraction(0)]
     if exact:
         dbl = [Fraction(x) for x in (-2, 5, 3, -7, 0, 11, 4, 1)]
+    v = Fraction(1, 2 ** 40)
+    dbl += rng.sample(HALVES + [Fraction(5, 2) + v, Fraction(5, 2) - v, -Fraction(5, 2) - v, -Fraction(5, 2) + v,
+                                Fraction(3, 2) - v, -Fraction(3, 2) + v], 5)
     rng.shuffle(dbl)
     for i in range(5):
         pool['D%d#' % (i + 1)] = ('#', float(dbl[i]), _fr(dbl[i]))
@@ -164,6 +174,10 @@ class TreeGen(object):
             if self.exact:
                 return int_literal(rng, rng.choice([0, 1, 2, 3, 4, 5, 6, 7, 8, 9, 10, 12, 16, 100]))
             return int_literal(rng)
+        if rng.random() < 0.2:
+            # exact half (a negative one arises through a unary minus node or a variable)
+            h = Fraction(rng.choice([1, 3, 5, 7, 9, 15, 201, 65533]), 2)
+            return single_literal(rng, h) if ty != '#' else double_literal(rng, h)
         if ty == '!':
             return single_literal(rng, exact_int=self.exact)
         return double_literal(rng, exact_int=self.exact)
@@ -292,6 +306,53 @@ def unary_table():
             for ti, (a, b, c) in enumerate(TRIPLES[:4]):
                 yield ('un-un', u, u2, ti), ['U', u, ['U', u2, L(a, TYPE_ROWS[ti % 5][0])]]
                 yield ('un-un-bin', u, u2, ti), ['B', '-', L(c), ['U', u, ['U', u2, L(a)]]]
+
+
+INT_OPS = ['\\', 'MOD', 'AND', 'OR', 'XOR', 'EQV', 'IMP']
+
+
+def halves_table():
+    """
+    Operands of the integer-converting operators at exact halves and their neighbours, both signs, as literal (negative:
+    unary minus node), as computed sub-expression and as variable (names must be in the pool made by halves_pool()).
+    """
+    mags = [Fraction(1, 2), Fraction(3, 2), Fraction(5, 2), Fraction(7, 2), Fraction(15, 2), Fraction(65533, 2), Fraction(65535, 2)]
+    others = [1, 4, 3]
+    for ty in '!#':
+        for m in mags:
+            for neg in (False, True):
+                lit = L(m, ty)
+                forms = [('literal', ['U', '-', lit] if neg else lit),
+                         ('computed', ['B', '-', L(0, '%'), L(m, ty)] if neg else ['B', '+', L(0, '%'), L(m, ty)]),
+                         ('quotient', ['B', '/', L(-m.numerator if neg else m.numerator, '%' if m.numerator < 32768 else '!'), L(2, '%')])]
+                for fname, x in forms:
+                    for oi, o in enumerate(INT_OPS):
+                        k = L(others[oi % 3])
+                        yield ('half', o, fname, ty, str(-m if neg else m), 'left'), ['B', o, x, k]
+                        yield ('half', o, fname, ty, str(-m if neg else m), 'right'), ['B', o, L(17), x]
+                    yield ('half', 'NOT', fname, ty, str(-m if neg else m)), ['U', 'NOT', x]
+    for name, (ty, _py, val) in sorted(halves_pool().items()):
+        x = ['V', ty, name, val]
+        for oi, o in enumerate(INT_OPS):
+            yield ('half-var', o, name, 'left'), ['B', o, x, L(others[oi % 3])]
+            yield ('half-var', o, name, 'right'), ['B', o, L(17), x]
+        yield ('half-var', 'NOT', name), ['U', 'NOT', x]
+
+
+def halves_pool():
+    pool = {}
+    u = Fraction(1, 2 ** 22)
+    v = Fraction(1, 2 ** 40)
+    vals = []
+    for m in (Fraction(1, 2), Fraction(5, 2), Fraction(7, 2), Fraction(65533, 2)):
+        for sgn in (1, -1):
+            vals.append(sgn * m)
+    for i, x in enumerate(vals + [Fraction(5, 2) + u, Fraction(5, 2) - u, -Fraction(5, 2) - u, -Fraction(5, 2) + u,
+                                  -Fraction(1, 2) + u / 4, -Fraction(1, 2) - u / 4]):
+        pool['H%d!' % i] = ('!', float(x), _fr(x))
+    for i, x in enumerate(vals + [Fraction(5, 2) + v, Fraction(5, 2) - v, -Fraction(5, 2) - v, -Fraction(5, 2) + v]):
+        pool['G%d#' % i] = ('#', float(x), _fr(x))
+    return pool
 
 
 def typing_table():
